@@ -229,6 +229,10 @@ pub trait LitLike {
     type LBytes: ?Sized;
     fn as_bytes(&self) -> &Self::LBytes;
     fn len(&self) -> usize;
+    /// the concrete string, if this literal is one
+    fn lit_str(&self) -> Option<&str> {
+        None
+    }
 }
 
 impl LitLike for str {
@@ -241,6 +245,9 @@ impl LitLike for str {
     fn len(&self) -> usize {
         str::len(self)
     }
+    fn lit_str(&self) -> Option<&str> {
+        Some(self)
+    }
 }
 
 impl LitLike for String {
@@ -252,6 +259,9 @@ impl LitLike for String {
     #[inline]
     fn len(&self) -> usize {
         String::len(self)
+    }
+    fn lit_str(&self) -> Option<&str> {
+        Some(self.as_str())
     }
 }
 
@@ -312,6 +322,9 @@ pub trait Text: LitLike<LBytes = <Self as Text>::Bytes> + Index<Range<usize>, Ou
     /// smallest value each byte can take under the current path condition (used only by the
     /// fallback rewrite of `prev_codepoint_ix`, when its byte test cannot be made generic).
     fn representative_bytes(&self) -> Vec<u8>;
+    /// A concrete instance of this text: the text itself, or for a symbolic text the
+    /// lexicographically smallest text that satisfies the current path condition.
+    fn representative(&self) -> String;
 
     /// Run the repository's VM on this text.
     fn run_vm(
@@ -357,6 +370,9 @@ impl Text for str {
     fn representative_bytes(&self) -> Vec<u8> {
         str::as_bytes(self).to_vec()
     }
+    fn representative(&self) -> String {
+        self.to_string()
+    }
     fn run_vm(
         &self,
         prog: &crate::vm::Prog,
@@ -365,6 +381,32 @@ impl Text for str {
         opts: &crate::symx_api::Opts,
     ) -> crate::Result<Option<Vec<usize>>> {
         crate::vm::run(prog, self, pos, option_flags, &opts.0)
+    }
+}
+
+/// Width of the UTF-8 character whose lead byte is `b` -- /verif's own, so that the models
+/// and the reference matcher do not depend on the repository's helper.
+pub fn cp_len<B: ByteLike>(b: B) -> usize {
+    if b < 0x80 {
+        1
+    } else if b < 0xe0 {
+        2
+    } else if b < 0xf0 {
+        3
+    } else {
+        4
+    }
+}
+
+/// Start of the character that ends at `ix` (ix > 0) -- /verif's own.
+pub fn prev_boundary<T: Text + ?Sized>(t: &T, mut ix: usize) -> usize {
+    loop {
+        ix -= 1;
+        // a continuation byte is 0x80..=0xBF
+        let b = t.as_bytes()[ix];
+        if ix == 0 || b < 0x80 || b >= 0xc0 {
+            return ix;
+        }
     }
 }
 
@@ -441,7 +483,7 @@ impl Text for SymStr {
         }
     }
     fn class_contains(&self, ix: usize, cls: &Cls) -> bool {
-        let w = crate::codepoint_len(self.0[ix]);
+        let w = cp_len(self.0[ix]);
         let b = &self.0[ix..ix + w];
         if let Some(c) = decode_concrete(b) {
             return cls.contains(c);
@@ -453,6 +495,13 @@ impl Text for SymStr {
     }
     fn as_sym(&self) -> Option<&SymStr> {
         Some(self)
+    }
+    fn representative(&self) -> String {
+        let terms: Vec<Result<u8, String>> = self.0.iter().map(|b| match b.concrete() {
+            Some(v) => Ok(v),
+            None => Err(b.term()),
+        }).collect();
+        String::from_utf8(engine::min_model(&terms)).expect("representative text is valid UTF-8 (layout constraint)")
     }
     fn representative_bytes(&self) -> Vec<u8> {
         self.0.iter().map(|b| match b.concrete() {
